@@ -59,7 +59,7 @@ func genC07Node(g *simkit.Gen, depth int, shared bool) *C07Node {
 			if shared && g.Prob(0.5) {
 				c.Link = "same"
 			} else {
-				c.Link = simkit.Pick(g, []string{"fresh", "fresh", "grpc", "grpc-lower", "grpc-fwd", "gin", "gin-lower", "dubbo", "dubbo-golower", "dubbo-java", "dubbo-lower"})
+				c.Link = simkit.Pick(g, []string{"fresh", "fresh", "grpc", "grpc-lower", "grpc-fwd", "gin", "gin-lower", "dubbo", "dubbo-golower", "dubbo-java", "dubbo-lower", "dubbo-fwd"})
 			}
 			n.Children = append(n.Children, c)
 		}
@@ -264,12 +264,12 @@ func (o *c07Obs) call(c context.Context, ch *C07Node) {
 			}
 		}
 		r.ServeHTTP(httptest.NewRecorder(), req)
-	case "dubbo", "dubbo-golower", "dubbo-java", "dubbo-lower":
+	case "dubbo", "dubbo-golower", "dubbo-java", "dubbo-lower", "dubbo-fwd":
 		f := sdubbo.GetDubboTransactionFilter()
 		client := &dubboInvoker{f: func(ctx context.Context, inv protocol.Invocation) {
 			att := map[string]interface{}{}
 			switch ch.Link {
-			case "dubbo":
+			case "dubbo", "dubbo-fwd":
 				if v, ok := inv.GetAttachment("SEATA_XID"); ok {
 					att["SEATA_XID"] = v
 				}
@@ -291,7 +291,15 @@ func (o *c07Obs) call(c context.Context, ch *C07Node) {
 			server := &dubboInvoker{f: func(sctx context.Context, _ protocol.Invocation) { o.exec(sctx, ch) }}
 			f.Invoke(context.Background(), server, invocation.NewRPCInvocation("m", nil, att))
 		}}
-		f.Invoke(c, client, invocation.NewRPCInvocation("m", nil, map[string]interface{}{}))
+		out := map[string]interface{}{}
+		if ch.Link == "dubbo-fwd" && o.entering != "" {
+			// dubbo-go copies the attachments a provider was called with onto the
+			// invocations it makes itself: the xid this service was entered under
+			// is already there when the consumer-side filter runs
+			out["SEATA_XID"] = o.entering
+			out["TX_XID"] = o.entering
+		}
+		f.Invoke(c, client, invocation.NewRPCInvocation("m", nil, out))
 	}
 }
 
